@@ -242,8 +242,26 @@ pub fn gen_case(idx: u64) -> Case {
         }
         h.line("unsigned char after_h;");
         files.push(("defect.h".into(), h.lines.join("\n") + "\n"));
-        w.line("#include \"defect.h\"");
-        exp_inc = Some(("string".into(), w.cur()));
+        if rng.chance(1, 2) {
+            // two levels: main includes outer.h, which includes defect.h
+            let mut o = W { lines: vec![], n: 200, constructs: vec![], dropped: 0 };
+            let k = rng.range(0, 3);
+            for i in 0..k {
+                o.line(&format!("unsigned char ov{};", i));
+            }
+            o.line("#include \"defect.h\"");
+            exp_inc = Some(("outer.h".into(), o.cur()));
+            let k2 = rng.range(0, 2);
+            for i in 0..k2 {
+                o.line(&format!("unsigned char ow{};", i));
+            }
+            files.push(("outer.h".into(), o.lines.join("\n") + "\n"));
+            w.line("#include \"outer.h\"");
+            w.constructs.push("defect two include levels deep".into());
+        } else {
+            w.line("#include \"defect.h\"");
+            exp_inc = Some(("string".into(), w.cur()));
+        }
         exp_file = "defect.h".into();
         w.constructs.extend(h.constructs);
         w.constructs.push("defect inside an included header".into());
@@ -377,6 +395,20 @@ fn judge(kind: &str, idx: u64, c: &Case, sig: Option<String>) -> CaseResult {
                 );
                 return res;
             }
+            // the text a user reads (Display) must say the same as the fields
+            let want_loc = format!("on line {} of {}", e.line, e.filename);
+            let want_inc = e.included_in.as_ref().map(|i| format!("(included in {} on line {})", i.0, i.1));
+            if !e.rendered.contains(&want_loc) || want_inc.as_ref().map(|w| !e.rendered.contains(w.as_str())).unwrap_or(false) {
+                viol(
+                    &mut res,
+                    format!(
+                        "the rendered message '{}' does not name the location its fields carry ({}:{} included in {:?})",
+                        e.rendered, e.filename, e.line, e.included_in
+                    ),
+                );
+                return res;
+            }
+            res.count("rendered messages checked", 1);
             res.class = "error carries the planted location".into();
             if c.offset != 0 {
                 res.count("cases where preprocessed and original line numbers differ", 1);
